@@ -64,9 +64,16 @@ def seeds_table():
            "| Seed | Needs to manifest | Result of the property's quick check |", "|---|---|---|"]
     for m in sorted(glob.glob(os.path.join(V, "seeded", "*", "meta.json"))):
         j = json.load(open(m))
-        out.append("| %s | %s | %s |" % (j["id"], j["needs_to_manifest"][:220].replace("|", "/"),
+        out.append("| %s | %s | %s |" % (j["id"], clean_needs(j["needs_to_manifest"]),
                                          res.get(j["id"], j.get("detected_by") or "not yet drilled")))
     return out
+
+
+def clean_needs(t):
+    import re
+    t = re.sub(r"^\s*(#+\s*)?\**\s*(What (it|is) need(s|ed)( for it)? to manifest|Needed to manifest)\s*:?\**\s*:?", "", t.strip(), flags=re.I)
+    t = re.sub(r"\s+", " ", t).replace("|", "/").strip(" :*-")
+    return t[:260]
 
 
 def main():
